@@ -224,6 +224,22 @@ CHECKS = {
         "runtime monitoring: differential oracle (with / without the corrupted files) over entity tables, page names and output trees; CPU-limit watchdog",
         "3/C20",
     ),
+    "C16": (
+        "exploration",
+        "Runtime monitor over pairs of real `python -m ford` runs: generated project A (2-3 modules, default public/private, public/private/"
+        "protected variables, types, procedures, generic and abstract interfaces, names shared between modules) is documented with externalize "
+        "(once, or rebuilt with other options / after its files changed), then generated project B (use all/only/renamed, extends, components "
+        "and variables of A's types, calls, [[name]] and [[module:name]], an own module named like one of A's, own entities named like A's) is "
+        "documented against it through a relative path, an absolute path or a loop-back http URL. Every entity's doc carries a unique tracer "
+        "word that identifies the page documenting it. Oracles: modules.json lists exactly A's modules and their public/protected entities per "
+        "kind; every link leaving B resolves to an existing file and fragment of A's output; every modelled reference is linked from the "
+        "referring entity's pages to the page documenting the intended entity; B's own names win and the clashing A pages are never linked; "
+        "missing / corrupt / ill-shaped / unreachable descriptions leave the run and B's set of pages intact, also when listed before a healthy one.",
+        "Bare [[name]] references to names defined more than once accept any page documenting an entity of that name (FORD looks them up "
+        "project-wide); call links are only expected with graphs on; type-bound procedures and submodules of A are not modelled.",
+        "runtime monitoring: reference-model oracle over modules.json and over the link graph between two generated sites (tracer words identify pages)",
+        "3/C16",
+    ),
     "C14": (
         "exploration",
         "Runtime monitor (metamorphic) on the real fixed-to-free converter + reader + parser: each generated program is written "
